@@ -542,10 +542,8 @@ func runMergeSchema(w *world, c Case) ([]finding, string) {
 	return []finding{{"merged-stream:panic-value-lost", fmt.Sprintf("a convert function panicked with %q inside a merged stream; %d chunks and %d error items were delivered but no error item mentions the panic: %v", f.text(), items, errItems, others)}}, oc
 }
 
-// runMergeLag: source 0 panics at chunk PanicAt of 10 while its forwarder's buffer is full (the reader has only
-// taken PanicAt-5 of its items and then waits until the panic has happened). The error item must still reach
-// the reader. (The pause after the signal only gives the forwarder time to reach its send; a correct
-// implementation delivers the item however long that takes, so the verdict cannot be a false alarm.)
+// runMergeLag: source 0 panics at chunk PanicAt of 10 while its forwarder's buffer is full (a lagging reader).
+// The error item must still reach the reader.
 func runMergeLag(w *world, c Case, f failure) ([]finding, string) {
 	panicked := make(chan struct{})
 	mk := func(src int, panics bool) *schema.StreamReader[string] {
@@ -577,14 +575,17 @@ func runMergeLag(w *world, c Case, f failure) ([]finding, string) {
 	var others []string
 	waited := false
 	for {
-		if !waited && fromPanicking >= c.PanicAt-5 {
+		if !waited {
+			// lag: before every item is taken the forwarder gets time to run ahead as far as its buffer allows
+			// (whatever its capacity is), so that the panic happens while the buffer is full; once it has happened
+			// the forwarder gets time to reach its send. The pauses only give a defect time to show: a correct
+			// implementation delivers the error item however the timing falls, so they cannot cause a false alarm.
 			select {
 			case <-panicked:
-			case <-time.After(20 * time.Second):
-				return []finding{{"merged-stream:hang", "the convert function was never reached although the reader left room for it"}}, "merge-lag:hang"
+				time.Sleep(30 * time.Millisecond)
+				waited = true
+			case <-time.After(3 * time.Millisecond):
 			}
-			time.Sleep(50 * time.Millisecond)
-			waited = true
 		}
 		v, err := r.Recv()
 		if err == io.EOF {
